@@ -1,17 +1,2 @@
-(* GENERATED by tools/gotrans arithC14 from the Go sources; do not edit.
-   One definition per listed Go function; Proofs/ArithTieC14.v proves each equal to the hand-written model. *)
-From Coq Require Import ZArith Bool.
-From Elys Require Import Base.Res Base.Zdec Base.ZdecChk.
-Open Scope Z_scope.
-
-(* x/commitment/types (VestingTokens).VestedSoFar, pure mode (range panics and division by zero are not modelled)
-     vesting_NumBlocks : parameter vesting .NumBlocks
-     vesting_StartBlock : parameter vesting .StartBlock
-     vesting_TotalAmount : parameter vesting .TotalAmount
-     ctx_BlockHeight : parameter ctx .BlockHeight() *)
-Definition VestedSoFar (vesting_NumBlocks : Z) (vesting_StartBlock : Z) (vesting_TotalAmount : Z) (ctx_BlockHeight : Z) : Z :=
-  if (vesting_NumBlocks <=? 0) then
-    vesting_TotalAmount
-  else
-  (Z.quot (vesting_TotalAmount * (if (vesting_NumBlocks <? (ctx_BlockHeight - vesting_StartBlock)) then vesting_NumBlocks else (ctx_BlockHeight - vesting_StartBlock))) vesting_NumBlocks).
-
+(* gotrans failed on the current tree *)
+Definition handlers := gotrans_failed_on_the_current_tree_see_log.
